@@ -86,6 +86,11 @@ pub fn db_iter_all(db: &DB) -> (r: Vec<(Vec<u8>, Vec<u8>)>)
 pub fn bytes_ge(a: &Vec<u8>, b: &Vec<u8>) -> (r: bool) ensures r == !lex_lt(a@, b@) { **a >= **b }
 #[verifier::external_body]
 pub fn bytes_lt(a: &Vec<u8>, b: &Vec<u8>) -> (r: bool) ensures r == lex_lt(a@, b@) { **a < **b }
+// `>` / `<=` on byte strings (Vec<u8> compares lexicographically): the other two comparisons an edit may reach for
+#[verifier::external_body]
+pub fn bytes_gt(a: &Vec<u8>, b: &Vec<u8>) -> (r: bool) ensures r == lex_lt(b@, a@) { **a > **b }
+#[verifier::external_body]
+pub fn bytes_le(a: &Vec<u8>, b: &Vec<u8>) -> (r: bool) ensures r == !lex_lt(b@, a@) { **a <= **b }
 
 pub proof fn lemma_lex_lt_trans(a: Seq<u8>, b: Seq<u8>, c: Seq<u8>)
     requires lex_lt(a, b), lex_lt(b, c),
